@@ -1295,7 +1295,7 @@ fn arb_case() -> impl Strategy<Value = Case> {
 
 pub fn run(ctx: &Ctx, st: &mut Stats) {
     SCRIPT_CATALOGUE.run_list(st, &catalogue());
-    let n = ctx.tier.pick(60_000, 3_000_000);
+    let n = ctx.tier.pick(120_000, 3_000_000);
     SCRIPT_RANDOM.run_random(ctx, st, n, arb_case);
 }
 
